@@ -120,6 +120,12 @@ class RDFWriter(object):
 
         :return: An RDF graph.
         """
+        # Every conversion describes the current content of the documents and
+        # nothing else: empty the graph first, so that a writer used more than
+        # once does not add a further rdf:Seq to every Property and does not
+        # keep content the documents no longer have.
+        self.graph.remove((None, None, None))
+
         self.hub_root = URIRef(ODML_NS.Hub)
         if self.docs:
             for doc in self.docs:
